@@ -34,7 +34,8 @@ Lemma other_keys_distinct :
   capitalize x_tag <> auth_key /\ capitalize reqid_set_key <> auth_key /\ capitalize ctype_set_key <> auth_key.
 Proof. vm_compute. repeat split; discriminate. Qed.
 
-Lemma reqid_keys_agree : reqid_test_key = reqid_set_key.
+(* the request id test looks for the key that is set: literally, or -- case-insensitive clause -- for its lower-case form *)
+Lemma reqid_keys_agree : reqid_test_key = (if reqid_ci then map low reqid_set_key else reqid_set_key).
 Proof. vm_compute. reflexivity. Qed.
 
 Lemma ctype_keys_agree : ctype_test_key = ctype_set_key.
